@@ -145,6 +145,19 @@ def signature(pid, code, idx, trace):
             if f[1] == "issue" and int(f[3]) == op:
                 cause = "site%s-kind%s" % (f[5], f[4])
                 break
+        if code == 108:
+            # who is deleting: the from-state of the stop call that issued the Delete
+            inst = None
+            for l in trace[:idx]:
+                f = l.split()
+                if f[1] == "issue" and int(f[3]) == op:
+                    inst = f[2]
+            frm = "?"
+            for l in trace[:idx]:
+                f = l.split()
+                if f[1] == "trans" and f[2] == inst and f[4] == "5":
+                    frm = f[3]
+            cause += "-stopfrom%s" % frm
     elif kind == "flag":
         cause = "flag%d-cause%d" % (a[1], a[2])
     elif kind == "issue":
@@ -171,10 +184,30 @@ def sim_check(pid, tier, seed, extra_assumptions=()):
     if res.tie_broken and tier == "quick":
         n = 1500  # proof or translation broken: larger search
     results, shards = simlib.run_sim(d["fams"], seed, n, shards=8 if tier == "quick" else 16, flavour=flavour)
+    # corpus: minimised scenarios that once failed (fixed defects, known findings, seeded changes); always run
+    cdir = os.path.join(vlib.VERIF, "corpus")
+    cfiles = sorted(f for f in os.listdir(cdir) if f.endswith(".json")) if os.path.isdir(cdir) else []
+    ctmp = None
+    if cfiles:
+        ctmp = os.path.join(vlib.BUILD, "corpus.%d.jsonl" % os.getpid())
+        with open(ctmp, "w") as f:
+            for c in cfiles:
+                sc = json.load(open(os.path.join(cdir, c)))
+                sc = sc.get("scenario", sc)
+                sc["name"] = "corpus-" + c[:-5]
+                sc["family"] = "corpus"
+                f.write(json.dumps(sc) + "\n")
+        r2, s2 = simlib.run_sim(["G1"], seed, 1, flavour=flavour, scen_in=ctmp)
+        for r in r2:
+            r["family"] = "corpus"
+        results = r2 + results
+        shards = shards + s2
     try:
         return _evaluate(pid, d, res, results, tier)
     finally:
         simlib.cleanup(shards)
+        if ctmp:
+            os.remove(ctmp)
 
 
 def _evaluate(pid, d, res, results, tier):
@@ -205,6 +238,10 @@ def _evaluate(pid, d, res, results, tier):
                 sig = signature(pid, c, i, tr)
                 kf = [k for k in known if k["signature"] == sig]
                 if kf:
+                    if sig not in seen_known and os.environ.get("VERIF_SAVE_CORPUS"):
+                        cp = os.path.join(vlib.VERIF, "corpus", sig.replace("/", "_") + ".json")
+                        if not os.path.exists(cp):
+                            json.dump({"finding": sig, "what": ALARM_TEXT.get(c), "scenario": simlib.scenario_of(r)}, open(cp, "w"), indent=1)
                     seen_known[sig] = kf[0]["text"]
                 elif sig not in viol_sigs:
                     viol_sigs[sig] = (r, i, c, tr)
